@@ -75,8 +75,11 @@ def null_factory():
     return F()
 
 
-def measure(chain, n, texture, write_api, extract_api, position, wd, scale=SCALE):
-    """-> dict(write_peak, extract_peak, ok)"""
+def measure(chain, n, texture, write_api, extract_api, position, wd, scale=SCALE, link=False):
+    """-> dict(write_peak, extract_peak, ok).  link: the big member carries the UNIX symbolic-link attribute (its contents are
+    then the link text, which extraction to a path has to read before it can create the link)."""
+    import stat
+
     import py7zr
 
     install_key_cache()
@@ -113,6 +116,8 @@ def measure(chain, n, texture, write_api, extract_api, position, wd, scale=SCALE
                     z.writef(LazySource(n, texture), "big.bin")
                 else:
                     z.write(src_path, "big.bin")
+                if link:
+                    z.header.files_info.files[-1]["attributes"] = stat.FILE_ATTRIBUTE_ARCHIVE | 0x8000 | ((stat.S_IFLNK | 0o777) << 16)
                 if position in ("first", "between"):
                     z.writestr(small, "small-after")
             res["write_peak"] = tracemalloc.get_traced_memory()[1] - base
@@ -132,9 +137,14 @@ def measure(chain, n, texture, write_api, extract_api, position, wd, scale=SCALE
                         res["error"] = "testzip reports damage on an intact archive"
             res["extract_peak"] = tracemalloc.get_traced_memory()[1] - base
         except Exception as ex:
-            res["error"] = f"extract: {type(ex).__name__}: {ex}"
+            if link:
+                # refusing such a member is fine; what it cost to get there is what is measured
+                res["extract_peak"] = tracemalloc.get_traced_memory()[1] - base
+                res["refused"] = type(ex).__name__
+            else:
+                res["error"] = f"extract: {type(ex).__name__}: {ex}"
         tracemalloc.stop()
-    if extract_api == "path" and "error" not in res:
+    if extract_api == "path" and "error" not in res and not link:
         p = os.path.join(wd, "out", "big.bin")
         if not os.path.exists(p) or os.path.getsize(p) != n:
             res["error"] = "extracted size differs"
@@ -174,7 +184,7 @@ def run_series(s, wd):
     plan = [(SCALE, n_mid), (SCALE, n_big)] + ([] if s.get("growth_only") else [(SCALE // 2, n_big), (SCALE // 4, n_big)])
     m = {}
     for scale, n in plan:
-        r = measure(s["chain"], n, s["texture"], s["write_api"], s["extract_api"], s["position"], wd, scale=scale)
+        r = measure(s["chain"], n, s["texture"], s["write_api"], s["extract_api"], s["position"], wd, scale=scale, link=s.get("link", False))
         points.append((scale, n, r.get("write_peak"), r.get("extract_peak")))
         if "error" in r:
             return [("error", f"scale 1/{scale} n={n}: {r['error']}")], points, {}
@@ -236,6 +246,8 @@ def shard(task):
                 sig = {"symptom": sym, "codec": compressor_of(s["chain"])[0], "direction": direction}
                 if s["position"].startswith("after-"):
                     sig["layout"] = "behind-many-small-members"
+                if s.get("link"):
+                    sig["layout"] = "symlink-member"
                 sh.violation(sig,
                              f"{s['chain']} {s['texture']} {s['write_api']}/{s['extract_api']}/{s['position']} ({direction}): {msg}", {"series": s})
     return sh.result()
@@ -265,6 +277,11 @@ def main(tier="quick", seed=0, only=None):
         if c in chains.ALL:
             for api in (["factory"] if tier == "quick" else ["factory", "path", "testzip"]):
                 allseries.append({"chain": c, "texture": "noise", "write_api": "writef", "extract_api": api, "position": "after-8192", "sizes": [], "growth_only": True})
+    # a small archive whose big, highly compressible member is flagged as a symbolic link: extraction to a path reads the
+    # link text before creating the link (or refuses) - in bounded memory
+    for c in ["LZMA2", "COPY", "BZIP2"] + (["ZSTD", "LZMA2+AES", "DEFLATE", "PPMD"] if tier == "thorough" else []):
+        for t in ("zeros", "period3") if tier == "thorough" else ("zeros",):
+            allseries.append({"chain": c, "texture": t, "write_api": "writef", "extract_api": "path", "position": "between", "sizes": [], "link": True})
     with Pool() as pool:
         res = pool.map(f"{MODULE}:shard", [[s] for s in allseries], soft=3000)
     chk.merge_pool(res)
@@ -273,7 +290,7 @@ def main(tier="quick", seed=0, only=None):
             f"both size constants on the data path rebound to 1/{SCALE} of their real values (I/O block {BLOCK} B, extraction chunk {CHUNK} B); "
             f"{len(fams)} chains (every codec family, BCJ/Delta prefixes, 7zAES) x textures zeros / period 3 / random x member sizes "
             f"1 MiB and 4 MiB (2048x / 8192x the block) x write API (writef from a lazy source / write from a file) x "
-            f"extraction API (path / null-writer factory / testzip) x position of the big member (first / last / between small ones; for {len(many)} chains also behind 8192 sixteen-byte members with incompressible contents); archive in a real "
+            f"extraction API (path / null-writer factory / testzip) x position of the big member (first / last / between small ones; for {len(many)} chains also behind 8192 sixteen-byte members with incompressible contents; and the big member flagged as a symbolic link, extracted to a path); archive in a real "
             f"file. Meter: tracemalloc peak of the write session and of the read session. Oracle: peak(n) - peak(smallest n) <= {BUDGET // 1024} KiB "
             "(700 MiB scaled), i.e. no growth with member size or compression ratio. evaluations = measured (configuration, size) points; "
             "distinct_nontrivial = growth series."
